@@ -28,7 +28,7 @@ LEVEL_NOTE = ("trusts the verification-side DOT parser (vlib/dotparse.py, ~170 l
 RULE = ("cases: trees up to depth 3 and <= 12 jobs, a DAG per level with nested schedulers at "
         "both ends of edges, empty nested schedulers, labels over an alphabet of quotes, "
         "newlines, DOT punctuation, spaces and non-ASCII, graph_label() overrides, all "
-        "critical/forever combinations. non-trivial: depth >= 2 with an edge touching a "
+        "critical/forever combinations; in 1 case in 5 the tree is drawn, pruned with bypass_and_remove / keep_only, and drawn again. non-trivial: depth >= 2 with an edge touching a "
         "cluster, or a label that needs quoting; distinct = distinct case digest")
 ASSUMPTIONS = STRUCT_ASSUMPTIONS
 
